@@ -530,7 +530,7 @@ def measure_steps(case):
 
 def jobs(tier, seed):
     out = [{"name": "compositions", "kind": "comp"}, {"name": "reentrant", "kind": "reentrant"}]
-    n, shards = (2400, 8) if tier == "quick" else (192000, 16)
+    n, shards = (2400, 8) if tier == "quick" else (384000, 16)
     for i in range(shards):
         out.append({"name": f"hyp-t-{i}", "kind": "hyp-t", "seed": seed * 1000 + i, "n": n // shards})
     out.append({"name": "hyp-p", "kind": "hyp-p", "seed": seed * 1000 + 99, "n": 400 if tier == "quick" else 16000})
